@@ -4,6 +4,7 @@ from __future__ import annotations
 
 import gc
 import json
+import warnings
 import weakref
 
 import numpy as np
@@ -227,6 +228,8 @@ def run_real(out: Outcome, rng, with_collective):
             # further public analysis calls (cached or not today): none of them may pin its object
             for fn in (lambda: tr.jumps(), lambda: tr.jumps(minimal_residence=1), lambda: tr.occupancy(), lambda: tr.atom_locations(),
                        lambda: tr.occupancy_by_site_type(), lambda: j.to_graph(), lambda: j.rates(2), lambda: j.split(2),
+                       # cached calls that FAIL (more parts than events): a failure must not pin the object either
+                       lambda: j.rates(50), lambda: j.activation_energies(50), lambda: j.rates(50),
                        lambda: m.tracer_diffusivity(dimensions=3), lambda: m.tracer_conductivity(z_ion=1, dimensions=3),
                        lambda: m.haven_ratio(dimensions=3), lambda: tr.split(2), lambda: tr.trajectory.metrics().speed()):
                 try:
@@ -254,6 +257,80 @@ def run_real(out: Outcome, rng, with_collective):
     out.nontrivial.add(('real', json.dumps(case['real'][0]['s']), with_collective))
 
 
+def run_shared_trajectory(out: Outcome, rng):
+    """ONE Trajectory object analysed for two diffusing species one after the other (both orders): every result must equal the
+    result of the same analysis on a freshly built, never analysed copy — nothing computed for one analysis may reach the other"""
+    from . import gem, hist
+    T = int(rng.integers(40, 90))
+    s, i = hist.random_histories(rng, T, 4, 3, inner=False)
+    a = 8.0
+    lat = np.eye(3) * a
+    coords = np.zeros((T, 5, 3))
+    for t in range(T):
+        for k in range(4):
+            coords[t, k] = hist.VOID if s[t, k] < 0 else hist.SITE_POOL[s[t, k]]
+        coords[t, 4] = [0.875, 0.875, 0.875]
+    # the two species vibrate with different amplitudes (different attempt frequencies)
+    jit = rng.integers(-6, 7, size=(T, 5, 3)) / 1024
+    jit[:, 2:4] = rng.integers(-2, 3, size=(T, 2, 3)) / 1024 * (np.arange(T)[:, None, None] % 3 == 0)
+    coords = coords + jit
+    species = ['Li', 'Li', 'Na', 'Na', 'O']
+    sites = gem.make_sites(lat, hist.SITE_POOL[:3])
+
+    def build():
+        return gem.make_traj(coords, lat, species, time_step=2e-15, metadata={'temperature': 500.0})
+
+    def analyse(traj, sp):
+        res = {}
+        with warnings.catch_warnings():
+            warnings.simplefilter('ignore')
+            tr = traj.transitions_between_sites(sites, floating_specie=sp, site_radius=1.0)
+            j = tr.jumps()
+            res['n_jumps'] = int(j.n_jumps)
+            res['edges'] = {e: float(d['e_act']) for e, d in j.to_graph().edges.items()}
+            try:
+                res['max_steps'] = int(j.collective().max_steps)
+            except Exception as e:  # noqa: BLE001
+                res['max_steps'] = type(e).__name__
+            try:
+                res['e_act'] = {k: tuple(map(float, v)) for k, v in j.activation_energies(n_parts=2).T.to_dict('list').items()}
+            except Exception as e:  # noqa: BLE001
+                res['e_act'] = type(e).__name__
+            res['attempt'] = float(traj.filter(sp).metrics().attempt_frequency()[0])
+        return res
+
+    def same(x, y):
+        if isinstance(x, dict) and isinstance(y, dict):
+            return x.keys() == y.keys() and all(same(x[k], y[k]) for k in x)
+        if isinstance(x, (tuple, list)) and isinstance(y, (tuple, list)):
+            return len(x) == len(y) and all(same(p, q) for p, q in zip(x, y))
+        if isinstance(x, float) and isinstance(y, float):
+            return (np.isnan(x) and np.isnan(y)) or x == y or abs(x - y) <= 1e-12 * max(abs(x), abs(y))
+        return x == y
+
+    try:
+        ref = {sp: analyse(build(), sp) for sp in ('Li', 'Na')}
+    except ValueError:
+        out.count('shared-trajectory-no-jumps')
+        return
+    out.evaluations += 1
+    case = {'shared_trajectory': True, 's': s.T.tolist(), 'note': 're-run ./check C20 quick with the recorded seed'}
+    for order in (('Li', 'Na'), ('Na', 'Li')):
+        traj = build()
+        for sp in order:
+            try:
+                got = analyse(traj, sp)
+            except ValueError:
+                got = None
+            if got is None or not same(got, ref[sp]):
+                diff = [k for k in ref[sp] if got is None or not same(got.get(k), ref[sp][k])]
+                out.fail('property', 'analysis-independent-of-earlier-analyses', {**case, 'order': list(order), 'species': sp},
+                         expected={k: ref[sp][k] for k in diff[:3]}, observed=None if got is None else {k: got.get(k) for k in diff[:3]},
+                         note=f'{sp} analysed {"second" if sp == order[1] else "first"} on a trajectory object shared with the {order[0] if sp == order[1] else order[1]} analysis')
+                break
+    out.nontrivial.add(('shared', json.dumps(case['s'])))
+
+
 def corpus():
     d = core.CORPUS / PID
     return [json.loads(p.read_text()) for p in sorted(d.glob('*.json'))] if d.exists() else []
@@ -274,6 +351,8 @@ def run(tier: str, seed: int, scale: int) -> Outcome:
         run_toy(out, ops, nobj, cap, selfref=(k % 7 == 0), tag='random')
     for k in range((12 if tier == 'quick' else 150) * scale):
         run_real(out, rng, with_collective=(k % 3 == 0))
+    for k in range((6 if tier == 'quick' else 60) * scale):
+        run_shared_trajectory(out, rng)
     return out
 
 
